@@ -1,5 +1,6 @@
 """C15 — solver options change performance and search order only, never validity."""
 import itertools
+import warnings
 import tempfile
 import shutil
 import os
@@ -201,6 +202,27 @@ def solve_one(spec, cfg, py_seed):
                 out["note"] = "optimize_with_quantifiers_not_compared"
             if comparable:
                 out["opt"] = c07.observed_value(spec, res, res["_built"])
+        # the same question asked again of the same solver object: a configuration must not turn the second answer
+        # into another verdict (pareto / box with several objectives walk a list and end with failure: not asked)
+        walks = cfg.get("optimizer") == "optimize" and multi and cfg.get("optimize_priority", "pareto") in ("pareto", "box")
+        if not walks:
+            from .. import instrument as ins
+            from .. import observe as obs
+            nchk = len(ins.check_results())
+            try:
+                with warnings.catch_warnings():
+                    warnings.simplefilter("ignore")
+                    sol2 = res["_solver"].solve()
+                new = ins.check_results()[nchk:]
+                if sol2:
+                    out["again"] = "sat"
+                    rep2, _P2 = rs.evaluate_observed(spec, obs.observe(res["_built"], sol2, res["_solver"]._model))
+                    out["failed"] += [[cl, d] for cl, d in rep2.failed()
+                                      if cl.startswith(("C01.", "C02.", "C03.", "C04.", "C09."))]
+                else:
+                    out["again"] = "unsat" if new and new[-1] == "unsat" else "unknown"
+            except Exception as exc:  # pylint: disable=broad-except
+                out["again"] = "exception:" + type(exc).__name__
     return out
 
 
@@ -258,7 +280,7 @@ def run_spec(case):
     spec = case["spec"]
     has_obj = bool(spec.get("objectives"))
     multi = len(spec.get("objectives", [])) > 1
-    answers = []
+    answers, again = [], []
     feats = spec_features(spec)
     cfgs = list(enumerate(configs(case["tier"], has_obj, multi)))
     child_results = run_children(spec, [(i, c) for i, c in cfgs if risky(c)], case["rng"]) if any(risky(c) for _i, c in cfgs) else {}
@@ -296,6 +318,8 @@ def run_spec(case):
         if r.get("note"):
             acc.count(acc.outcomes, r["note"])
         answers.append((tag, cfg, out, r.get("opt")))
+        if r.get("again"):
+            again.append((tag, cfg, r["again"]))
     # agreement among definite answers
     verdicts = {a[2] for a in answers}
     acc.count(acc.clauses, f"C15.feasibility_agree:{'T' if len(verdicts) <= 1 else 'F'}")
@@ -306,6 +330,16 @@ def run_spec(case):
                       {"sat_logics": sat_cfg[1].get("logics"), "unsat_logics": unsat_cfg[1].get("logics"),
                        "sat_debug": bool(sat_cfg[1].get("debug")), "unsat_debug": bool(unsat_cfg[1].get("debug"))},
                       {"sat_under": sat_cfg[0], "unsat_under": unsat_cfg[0]})
+    v2 = {a[2] for a in again if a[2] in ("sat", "unsat")}
+    if again:
+        acc.count(acc.clauses, f"C15.feasibility_agree_when_asked_again:{'T' if len(v2) <= 1 else 'F'}")
+    if len(v2) > 1:
+        s_cfg = next(a for a in again if a[2] == "sat")
+        u_cfg = next(a for a in again if a[2] == "unsat")
+        acc.violation("C15.feasibility_differs_when_asked_again", "differs",
+                      {"unsat_parallel": bool(u_cfg[1].get("parallel")), "unsat_debug": bool(u_cfg[1].get("debug")),
+                       "unsat_optimizer": u_cfg[1].get("optimizer"), "unsat_random": bool(u_cfg[1].get("random_values"))},
+                      {"sat_under": s_cfg[0], "unsat_under": u_cfg[0]})
     # z3.Optimize over the array / quantified buffer encodings returns non-optimal models (known finding):
     # the incremental configurations are compared among themselves, the built-in optimiser against them
     buffered = bool({"arrays", "quant"} & feats)
